@@ -56,20 +56,35 @@ def line_text(kind, i, infmt, rng):
     name = 'John%d' % i
     if kind == 'blank':
         return rng.choice(['', '   ', '\t'])
-    verb = rng.choice(['runs', 'runs', 'John'])          # 'John<i> John': no parse -> the failure placeholder is printed
-    if infmt == 'tagged':
-        a, b = '%s|NNP|O' % name, '%s|VBZ|O' % verb
-        if rng.random() < 0.3:
-            a = '%s|%s|NNP|O|I-NP' % (name, name.lower())
-    else:
-        a, b = name, verb
+    verb = rng.choice(['runs', 'runs', 'John'])
+    # the items of the line: fields separated by '|' (with the raw format an item is a word whatever it contains, so the
+    # same texts are used for both formats, except that plain lines stay plain words)
+    if kind in ('ok', 'gap'):
+        a, b = ('%s|NNP|O' % name, '%s|VBZ|O' % verb) if infmt == 'tagged' else (name, verb)
+    elif kind == 'ok4':
+        a, b = '%s|%s|NNP|O' % (name, name.lower()), '%s|run|VBZ|O' % verb
+    elif kind == 'ok5':
+        a, b = '%s|%s|NNP|O|I-NP' % (name, name.lower()), '%s|run|VBZ|O|I-VP' % verb
+    elif kind == 'bad2':
+        a, b = '%s|NNP' % name, '%s|VBZ|O' % verb
+    else:       # bad6
+        a, b = '%s|x|NNP|O|I-NP|extra' % name, '%s|VBZ|O' % verb
     sep = '  ' if kind == 'gap' else ' '
     pad = rng.choice(['', ' ', '  '])
     return pad + a + sep + b + pad
 
 
+def layout_of(leaf):
+    """(word, lemma, pos, entity, chunk) of a printed leaf -> which attributes came from the input ('xx' none, 'f3' pos and
+    entity, 'f4' lemma too, 'f5' chunk too); the texts of line_text make the classes disjoint"""
+    word, lemma, pos, entity, chunk = leaf
+    shown = (lemma != 'XX', pos != 'XX', entity != 'XX', chunk != 'XX')
+    return {(False, False, False, False): 'xx', (False, True, True, False): 'f3', (True, True, True, False): 'f4',
+            (True, True, True, True): 'f5'}.get(shown, 'other:%s' % (shown,))
+
+
 def ix_of_words(words):
-    m = re.match(r'John(\d+)$', words[0]) if words else None
+    m = re.match(r'John(\d+)(\||$)', words[0]) if words else None
     return int(m.group(1)) if m else 0
 
 
@@ -83,7 +98,7 @@ def run_vector(v, rng):
     log = [{'e': 'start', 'lines': v['lines'], 'source': v['source'], 'infmt': v['infmt'], 'dictoff': bool(v['dictoff'])}]
     texts = [line_text(k, i + 1, v['infmt'], rng) for i, k in enumerate(v['lines'])]
     d = scratch('driver')
-    argv = ['depccg', 'en', '--silent', '-p', '1', '-I', 'POSandNERtagged' if v['infmt'] == 'tagged' else 'raw']
+    argv = ['depccg', 'en', '--silent', '-p', '1', '-f', 'auto_extended', '-I', 'POSandNERtagged' if v['infmt'] == 'tagged' else 'raw']
     if v['dictoff']:
         argv.append('--disable-category-dictionary')
     stdin = io.StringIO(''.join(t + '\n' for t in texts))
@@ -117,13 +132,15 @@ def run_vector(v, rng):
         before = len(out.getvalue())
         orig[3](results, **k)
         text = out.getvalue()[before:]
-        # AUTO text: one 'ID=' header and one derivation line per record; the first word of the derivation names the line
-        recs = []
+        # AUTO (extended) text: one 'ID=' header and one derivation line per record; the first word of the derivation names the
+        # line, the attributes of its first token show what the tokeniser made of the item
+        recs, lays = [], []
         for ln in text.split('\n'):
             if ln.startswith('('):
-                ws = re.findall(r'\(<L \S+ \S+ \S+ (\S*) \S+>\)', ln)
-                recs.append(ix_of_words(ws) if ws else 0)
-        log.append({'e': 'print', 'ix': recs, 'headers': sum(1 for ln in text.split('\n') if ln.startswith('ID='))})
+                lv = re.findall(r'\(<L \S+ (\S*) (\S*) (\S*) (\S*) (\S*) \S+>\)', ln)
+                recs.append(ix_of_words([x[0] for x in lv]) if lv else 0)
+                lays.append(layout_of(lv[0]) if lv else 'none')
+        log.append({'e': 'print', 'ix': recs, 'lay': lays, 'headers': sum(1 for ln in text.split('\n') if ln.startswith('ID='))})
     tagger = FakeTagger(log)
     M.load_model = lambda model, gpu: (tagger, MODELS['en'])
     P.apply_category_filters, P.run, M.print_ = w_filter, w_run, w_print
@@ -149,13 +166,13 @@ def run_vector(v, rng):
         evs.append({'e': e['e'], 'lines': e.get('lines', []), 'source': e.get('source', ''), 'infmt': e.get('infmt', ''), 'dictoff': e.get('dictoff', False),
                     'ix': e.get('ix', [ix_of_words(s) for s in e.get('words', [])]), 'n': len(e.get('words', e.get('ix', []))),
                     'empty_words': sum(1 for s in e.get('words', []) for w in s if w == ''),
-                    'headers': e.get('headers', 0), 'nres': e.get('nres', 0), 'kind': e.get('kind', '')})
+                    'lay': e.get('lay', []), 'headers': e.get('headers', 0), 'nres': e.get('nres', 0), 'kind': e.get('kind', '')})
     return evs, texts
 
 
 def conformance(tier, rng):
     vecs, mr = tlc_vectors()
-    use = vecs if tier == 'thorough' else rng.sample(vecs, 160)
+    use = vecs if tier == 'thorough' else rng.sample(vecs, 300)
     events, metas = [], {}
     g = 0
     for v in use:
@@ -178,7 +195,12 @@ def conformance(tier, rng):
         if e['e'] == 'parse' and len(e['ix']) >= 2:
             e['ix'] = e['ix'][::-1]
             return e
-    demo = binding_demo('traces/DriverTrace.tla', events, [('one_printed_record_removed', drop_record), ('parsed_sentences_reordered', swap)], 'driver', group='g')
+    def relayout(e):
+        if e['e'] == 'print' and e['lay']:
+            e['lay'][0] = 'f4' if e['lay'][0] != 'f4' else 'xx'
+            return e
+    demo = binding_demo('traces/DriverTrace.tla', events, [('one_printed_record_removed', drop_record), ('parsed_sentences_reordered', swap),
+                                                           ('token_attributes_of_a_record_changed', relayout)], 'driver', group='g')
     dev = {}
     for i, cl in rejects:
         dev.setdefault(cl, []).append(metas[i])
